@@ -398,7 +398,11 @@ func (p *program) compile(i int, asInit bool, rt int) []byte {
 			a.op(vm.MSTORE)
 		case "transfer":
 			to, v := recipients[o.A%len(recipients)], valueAlphabet[o.B%len(valueAlphabet)]
-			note("CALL(transfer) to=%x value=%v gas=%s", to.Bytes()[18:], v, callGasNames[(o.C%2)*5])
+			gm := (o.C % 2) * 5 // all, or zero (stipend only)
+			if o.A%len(recipients) != 0 && o.A%len(recipients) != 1 {
+				gm = 5 // a recipient with code only ever gets the stipend: no call cycles
+			}
+			note("CALL(transfer) to=%x value=%v gas=%s", to.Bytes()[18:], v, callGasNames[gm])
 			a.pushU(canary)
 			a.pushU(0)
 			a.pushU(0)
@@ -406,7 +410,7 @@ func (p *program) compile(i int, asInit bool, rt int) []byte {
 			a.pushU(0)
 			a.push(v)
 			a.pushAddr(to)
-			a.pushCallGas((o.C % 2) * 5) // all or zero (stipend only)
+			a.pushCallGas(gm)
 			a.op(vm.CALL)
 			a.afterCall(false)
 		case "selfdestruct":
